@@ -857,6 +857,30 @@ w('C13', 'BENIGN: prune start computed into a local before the loop', '',
   (HI, 'for i := sdkCtx.BlockHeight() - int64(entryNum); i >= 0; i-- {', 'pruneFrom := sdkCtx.BlockHeight() - int64(entryNum)\n\tfor i := pruneFrom; i >= 0; i-- {'))
 wseed('C01b','C01.R4'); wseed('C02b','C02.R6'); wseed('C02b','C16.R6',prop='C16'); wseed('C03b','C03.R4'); wseed('C04b','C04.R6'); wseed('C04b','C09.R6',prop='C09')
 wseed('C05b','C05.R1'); wseed('C06b','C06.R2'); wseed('C07b','C07.R6'); wseed('C08b','C08.R5'); wseed('C08b','C17.R1',prop='C17'); wseed('C09b','C09.R3'); wseed('C10b','C10.R2')
+wseed('C11b','C11.R2'); wseed('C12b','C12.R5'); wseed('C13b','C13.R5'); wseed('C14b','C14.R1'); wseed('C14b','C18.R3',prop='C18'); wseed('C15b','C15.R5')
+wseed('C16b','C16.R2'); wseed('C17b','C17.R1'); wseed('C18b','C18.R3'); wseed('C19b','C19.R3'); wseed('C20b','C20.R4')
+CG2='x/opchild/keeper/genesis.go'
+w('C16', 'opchild export never exports the stored BridgeInfo', 'C16.R2',
+  (CG2, '\t} else if ok {\n\t\tbridgeInfo_, err := k.BridgeInfo.Get(ctx)', '\t} else if ok && false {\n\t\tbridgeInfo_, err := k.BridgeInfo.Get(ctx)'))
+w('C16', 'opchild export ignores the error of loading the params', 'C16.R7',
+  (CG2, '\tparams, err := k.GetParams(ctx)\n\tif err != nil {\n\t\tpanic(err)\n\t}\n\n\tvalidators, err := k.GetAllValidators(ctx)', '\tparams, _ := k.GetParams(ctx)\n\n\tvalidators, err := k.GetAllValidators(ctx)'))
+w('C16', 'ophost import ignores a failing token-pair write', 'C16.R7',
+  (HG, '\t\t\tif err := k.SetTokenPair(ctx, bridgeId, tokenPair.L2Denom, tokenPair.L1Denom); err != nil {\n\t\t\t\tpanic(err)\n\t\t\t}', '\t\t\t_ = k.SetTokenPair(ctx, bridgeId, tokenPair.L2Denom, tokenPair.L1Denom)'))
+# behaviour-preserving refactors written by sub-agents (benign/<set>/pN.diff): every property must stay silent
+def wbenign(setid, patch):
+    d=os.path.join(HERE,'..','benign',setid)
+    eds=patch_edits(os.path.join(d,patch))
+    what=''
+    try:
+        for e in json.load(open(os.path.join(d,'results.json'))):
+            if e['patch']==patch: what=(e.get('what') or '')[:70]
+    except Exception: pass
+    for p in sorted(PROPS):
+        w(p, 'BENIGN '+setid+'/'+patch+': '+what, '', *eds, note='sub-agent behaviour-preserving refactor')
+PROPS=['C%02d'%i for i in range(1,21)]
+for b in ['B1','B2','B3','B4','B5','B6']:
+    for i in range(1,7):
+        wbenign(b,'p%d.diff'%i)
 #@@SEEDS@@
 #@@MORE@@
 for p,l in W.items():
